@@ -363,7 +363,7 @@ func (rw *rewriter) syncMethod(call *ast.CallExpr) (typ, method string, recv ast
 		return
 	}
 	typ = named.Obj().Name()
-	if typ != "Mutex" && typ != "RWMutex" && typ != "WaitGroup" {
+	if typ != "Mutex" && typ != "RWMutex" && typ != "WaitGroup" && typ != "Pool" {
 		return
 	}
 	method = f.Name()
@@ -441,6 +441,12 @@ func (rw *rewriter) callExpr(e *ast.CallExpr) ast.Expr {
 			case "WaitGroup.Add":
 				rw.count("sync-WGAdd")
 				return rw.call("WGAdd", recv, rw.expr(e.Args[0], ctxR), rw.site(e))
+			case "Pool.Get":
+				rw.count("sync-PoolGet")
+				return rw.call("PoolGet", recv, rw.site(e))
+			case "Pool.Put":
+				rw.count("sync-PoolPut")
+				return rw.call("PoolPut", recv, rw.expr(e.Args[0], ctxR), rw.site(e))
 			case "WaitGroup.Done":
 				fn = "WGDone"
 			case "WaitGroup.Wait":
